@@ -5,6 +5,7 @@ package sym
 
 import (
 	"crypto/sha256"
+	"crypto/sha512"
 	"fmt"
 	"go/types"
 	"path"
@@ -1012,4 +1013,39 @@ func init() {
 		}
 		return r
 	}
+}
+
+func init() {
+	// go-digest hashing of concrete data is computed natively (sha256/sha512 block functions are assembly).
+	fromBytes := func(fr *frame, a []value) value {
+		i := fr.i
+		alg, _ := concreteString(a[0])
+		var data []byte
+		switch x := a[1].(type) {
+		case string:
+			data = []byte(x)
+		case []value:
+			for _, e := range x {
+				ev := e.(ival)
+				if !ev.t.IsConst() {
+					i.unsupported("digest of symbolic bytes (digests are abstracted by the Verifier model in harnesses)")
+				}
+				data = append(data, byte(ev.t.val))
+			}
+		default:
+			i.unsupported("digest of a symbolic string")
+		}
+		switch alg {
+		case "sha256":
+			return fmt.Sprintf("sha256:%x", sha256.Sum256(data))
+		case "sha512":
+			return fmt.Sprintf("sha512:%x", sha512.Sum512(data))
+		}
+		i.unsupported("digest algorithm %q", alg)
+		return nil
+	}
+	externals["(github.com/opencontainers/go-digest.Algorithm).FromBytes"] = fromBytes
+	externals["(github.com/opencontainers/go-digest.Algorithm).FromString"] = fromBytes
+	externals["crypto/internal/fips140.getIndicator"] = func(fr *frame, a []value) value { return fr.i.mkInt(types.Uint8, 0) }
+	externals["crypto/internal/fips140.setIndicator"] = func(fr *frame, a []value) value { return nil }
 }
